@@ -48,9 +48,15 @@ for sid in sorted(os.listdir("/verif/seeded")):
         if not any_:
             return "-"
         return "; ".join(sorted({v["verdict"] for v in any_}))
-    labels = [a.split("=")[0] for a in sys.argv[1:]]
+    labels = []
+    for a in sys.argv[1:]:
+        if a.split("=")[0] not in labels:
+            labels.append(a.split("=")[0])
     rows[meta.get("round", 1)].append("| %s | %s | %s |" % (sid, meta["title"], " | ".join(cell(l) for l in labels)))
-labels = [a.split("=")[0] for a in sys.argv[1:]]
+labels = []
+for a in sys.argv[1:]:
+    if a.split("=")[0] not in labels:
+        labels.append(a.split("=")[0])
 for rnd in (1, 2):
     print("\nround %d\n" % rnd)
     print("| seed | change | %s |" % " | ".join(labels))
